@@ -154,6 +154,14 @@ META["C20"] = {
     "note": "Partial: decimal correctness is decided up to digit range/count/contiguity; the C library and OS are trusted.",
     "technique": "static analysis: interval abstract interpretation over clang's JSON AST, template/needle counting, folded emission lists on the symbolic machine",
 }
+META["C15"] = {
+    "level": "Error-discipline rules over the resolved program of the checker (dominators, provenance, typestate), enumerating every "
+             "zip, insert, look-up and Result-producing call site: the ways a single ill-typed edit can slip through are closed "
+             "structurally rather than sampled by mutation of test programs.",
+    "design_ref": "DESIGN.md §4 C15 (R-ZIP, R-DUP, R-NODUP, R-LOOKUP, R-RESULT)",
+    "note": "Rejection side only: that every well-typed program is accepted, and the type equality itself, are not decided.",
+    "technique": "static analysis: dominator/provenance rules on MIR call sites, must-dataflow typestate, call-graph panic inventory",
+}
 
 NOT_APPLICABLE = {
     "C09": "Run-time heap invariant of *generated* code at every statement boundary of every execution; no path property of the "
@@ -163,5 +171,5 @@ NOT_APPLICABLE = {
 }
 # properties whose checks are not built yet are listed here until their rules exist (kept current by bin/gen-manifest)
 PENDING = "check not built yet in this round; planned rules are in DESIGN.md §4"
-for _p in ["C15", "C16"]:
+for _p in ["C16"]:
     NOT_APPLICABLE.setdefault(_p, PENDING)
